@@ -155,9 +155,11 @@ func DirectiveEntries() map[string]Entry {
 		"year-long":               {Kind: EntryYear, Year: 2002, YearKeyword: "year"},
 		"default-commodity":       {Kind: EntryDefaultCommodity, Sym: "$", Format: "$1,000.00"},
 		"default-commodity-right": {Kind: EntryDefaultCommodity, Sym: "EUR", Format: "1.000,00 EUR"},
-		"comment":                 {Kind: EntryComment, Comment: &Comment{Text: " a comment line"}},
-		"comment-hash":            {Kind: EntryComment, CommentMark: "#", Comment: &Comment{Text: " hash comment"}},
-		"comment-tag":             {Kind: EntryComment, Comment: &Comment{Text: " tag:v", Tags: []Tag{{"tag", "v"}}}},
+		// a header without postings whose payee has postings elsewhere: the line below it is where a template is offered
+		"tx-header-only": {Kind: EntryTx, Tx: &Tx{Date: Date{2001, 1, 4, "-", true, false}, Gap: 1, HeaderKind: HeaderDesc, Desc: "grocery store"}},
+		"comment":        {Kind: EntryComment, Comment: &Comment{Text: " a comment line"}},
+		"comment-hash":   {Kind: EntryComment, CommentMark: "#", Comment: &Comment{Text: " hash comment"}},
+		"comment-tag":    {Kind: EntryComment, Comment: &Comment{Text: " tag:v", Tags: []Tag{{"tag", "v"}}}},
 	}
 }
 
